@@ -320,3 +320,33 @@ pub fn raw_parse(g: Grammar, text: &str, capacity: Option<usize>, rec_key: bool)
     hooks::set_key_includes_recursion_flags(false);
     (r, c)
 }
+
+#[derive(Clone, Debug, PartialEq)]
+pub enum MemoOutcome {
+    Accepted(RawTree),
+    Rejected,
+    /// the insert budget ran out (inconclusive)
+    Budget,
+}
+
+/// Raw parse under a memo configuration with a deterministic work bound (memo inserts).
+pub fn raw_parse_budget(g: Grammar, text: &str, capacity: Option<usize>, rec_key: bool, budget: Option<u64>) -> (MemoOutcome, hooks::Counters) {
+    hooks::set_insert_budget(budget);
+    let r = std::panic::catch_unwind(std::panic::AssertUnwindSafe(|| raw_parse(g, text, capacity, rec_key)));
+    hooks::set_insert_budget(None);
+    match r {
+        Ok((Some(t), c)) => (MemoOutcome::Accepted(t), c),
+        Ok((None, c)) => (MemoOutcome::Rejected, c),
+        Err(e) => {
+            let c = hooks::counters();
+            hooks::set_capacity(hooks::DEFAULT_CAPACITY);
+            hooks::set_key_includes_recursion_flags(false);
+            let is_budget = e.downcast_ref::<&str>().map(|s| *s == hooks::BUDGET_EXCEEDED).unwrap_or(false);
+            if is_budget {
+                (MemoOutcome::Budget, c)
+            } else {
+                std::panic::resume_unwind(e)
+            }
+        }
+    }
+}
